@@ -122,7 +122,8 @@ def _parallel(cmd, lines, env=None, jobs=None):
     n = len(lines)
     if n == 0:
         return []
-    size = max(1, min(2000, (n + jobs - 1) // jobs))
+    # many small chunks: a slow case delays only its own chunk, idle workers take the next one
+    size = max(1, min(250, (n + jobs * 8 - 1) // (jobs * 8)))
     chunks = [lines[k:k + size] for k in range(0, n, size)]
     with ThreadPoolExecutor(max_workers=jobs) as ex:
         res = list(ex.map(lambda c: _run_chunk(cmd, c, env), chunks))
